@@ -147,6 +147,9 @@ let () =
             else if ev.[0] = 'a' then EvAckW (unhex tl)
             else if ev.[0] = 'n' then EvNak (unhex tl)
             else if ev.[0] = 'j' then EvRej (unhex tl)
+            else if ev.[0] = 'S' then EvStale
+            else if ev.[0] = 't' then EvTermReq (n_of_int (int_of_string tl))
+            else if ev = "o" then EvStoppingTimeout
             else if ev.[0] = 'R' then (let (a, al, rs) = split3 tl in EvReauth (aaa_of a, orc_of al rs))
             else
               let i = String.index ev '.' in
